@@ -7,11 +7,12 @@
 //@rewrite-text ((klen as f64) / 32.0).ceil() as u32 ==> shim_ceil_div32(klen)
 //@assume shim_all_zero / shim_ne_slices / shim_ceil_div32 / shim_to_be_u32: all-zero test, slice inequality, ceil(klen/32) via f64, big-endian u32 (external_body shims whose body is the replaced std expression)
 //@assume G1/G2 point arithmetic, Fp12 arithmetic and the pairing are seen ONLY through the hand-written contracts of the `assumed` sections (bodies in gm-sm9/src/points.rs and fields/fp12.rs are not verified by Verus; their formulas are covered by Lean obligations; bilinearity/C12 is not claimed)
-//@assume sm9_random_u256: model of the rand crate as in unit sm2_rand (provenance predicate csprng9), rejection loops terminate with probability 1
+//@assume rejection loops (sign, encrypt, exch_step_1b) terminate with probability 1 (exec_allows_no_decreases_clause)
 //@include-spec sm2_math
 //@include-spec sm9_math
 //@include-spec sm3
 //@include-spec sm2_util
+//@include-spec sm9_rand
 //@section spec
 use core::fmt::Debug;
 use vstd::arithmetic::div_mod::*;
@@ -25,16 +26,16 @@ impl PartialEq for Fp12 { fn eq(&self, other: &Self) -> bool { unimplemented!() 
 impl Eq for Fp12 {}
 #[verifier::external]
 impl core::fmt::Debug for Sm9Error { fn fmt(&self, f: &mut core::fmt::Formatter<'_>) -> core::fmt::Result { Ok(()) } }
-// provenance of secret scalars (C14)
-pub uninterp spec fn csprng9(k: Seq<u64>) -> bool;
 // representation predicates / abstractions (G1 concrete, G2 / GT abstract)
 spec fn wf1(p: Point) -> bool { canon9(p.x@) && canon9(p.y@) && canon9(p.z@) }
 spec fn abs1(p: Point) -> Pt1 { abs_pt1(p.x@, p.y@, p.z@) }
 spec fn valid1(p: Point) -> bool { wf1(p) && on_curve1(abs1(p)) }
 pub uninterp spec fn valid2(q: TwistPoint) -> bool;
 pub uninterp spec fn abs2(q: TwistPoint) -> Pt2;
-pub uninterp spec fn ok12(f: Fp12) -> bool;
+// ok12 additionally fixes the number of coefficients of the abstract view (needed for |gt_bytes| = 384)
+pub uninterp spec fn ok12_repr(f: Fp12) -> bool;
 pub uninterp spec fn abs12(f: Fp12) -> Gt;
+spec fn ok12(f: Fp12) -> bool { ok12_repr(f) && abs12(f).c.len() == 12 }
 pub open spec fn pt1_x(q: Pt1) -> int { match q { Pt1::Inf => 0, Pt1::Aff { x, y } => x } }
 pub open spec fn pt1_y(q: Pt1) -> int { match q { Pt1::Inf => 0, Pt1::Aff { x, y } => y } }
 pub open spec fn xy1_bytes(q: Pt1) -> Seq<u8> { be_bytes(pt1_x(q), 32) + be_bytes(pt1_y(q), 32) }
@@ -86,6 +87,7 @@ pub open spec fn exch9_b(rb: int, ppube: Pt1, de_b: Pt2, ida: Seq<u8>, idb: Seq<
 type U256 = [u64; 4];
 //@stub sm9_limbs u256_cmp
 //@stub sm9_limbs u256_from_be_bytes
+//@stub sm9_rand sm9_random_u256
 //@section code gm-sm9/src/fields/fp.rs
 type Fp = U256;
 //@section code gm-sm9/src/error.rs
@@ -163,19 +165,37 @@ struct TwistPoint {
     z: Fp2,
 }
 //@section spec local
+proof fn k9_pow_one(e: nat, m: int) requires m > 1 ensures pow_mod(1, e, m) == 1 decreases e
+{ if e > 0 { k9_pow_one((e - 1) as nat, m); lemma_small_mod(1, m as nat); } else { lemma_small_mod(1, m as nat); } }
+// z == 1 (Montgomery one): the Jacobian point is its own affine form
+proof fn k9_z_one(p: Point)
+    requires wf1(p), fe9(p.z@) == 1
+    ensures val4(p.z@) != 0, abs1(p) == (Pt1::Aff { x: fe9(p.x@), y: fe9(p.y@) }), 0 <= fe9(p.x@) < P9(), 0 <= fe9(p.y@) < P9()
+{
+    lemma_params9();
+    k9_pow_one((P9() - 2) as nat, P9());
+    if val4(p.z@) == 0 { let v = val4(p.z@); assert(v * RINV_P9() == 0) by(nonlinear_arith) requires v == 0; lemma_small_mod(0, P9() as nat); }
+    let x = fe9(p.x@); let y = fe9(p.y@);
+    lemma_mod_bound(val4(p.x@) * RINV_P9(), P9());
+    lemma_mod_bound(val4(p.y@) * RINV_P9(), P9());
+    assert(x * 1 * 1 == x && y * 1 * 1 * 1 == y);
+    lemma_small_mod(x as nat, P9() as nat);
+    lemma_small_mod(y as nat, P9() as nat);
+}
 proof fn lemma_key9_consts()
     ensures val4(SM9_N@) == N9(), val4(SM9_N_MINUS_ONE@) == N9() - 1, val4(SM9_P@) == P9(),
         valid1(SM9_POINT_MONT_P1), abs1(SM9_POINT_MONT_P1) == G1P(),
 {
     assert(val4(SM9_N@) == N9() && val4(SM9_N_MINUS_ONE@) == N9() - 1 && val4(SM9_P@) == P9()) by(compute);
-    assume(valid1(SM9_POINT_MONT_P1) && abs1(SM9_POINT_MONT_P1) == G1P());
+    assert(canon9(SM9_POINT_MONT_P1.x@) && fe9(SM9_POINT_MONT_P1.x@) == P1X()) by(compute);
+    assert(canon9(SM9_POINT_MONT_P1.y@) && fe9(SM9_POINT_MONT_P1.y@) == P1Y()) by(compute);
+    assert(canon9(SM9_POINT_MONT_P1.z@) && fe9(SM9_POINT_MONT_P1.z@) == 1) by(compute);
+    k9_z_one(SM9_POINT_MONT_P1);
+    lemma_params9();
 }
 #[verifier::external_body]
 proof fn ax_p2_generator() ensures valid2(SM9_TWIST_POINT_MONT_P2), abs2(SM9_TWIST_POINT_MONT_P2) == G2P() { }
 //@section assumed gm-sm9/src/u256.rs
-fn sm9_random_u256(range: &U256) -> (ret: U256)
-    ensures 1 <= val4(ret@) < val4(range@), csprng9(ret@)
-{ unimplemented!() }
 fn xor(k: &[u8], data: &[u8], len: usize) -> (ret: Vec<u8>)
     requires len <= k@.len(), len <= data@.len()
     ensures ret@ == s_xor(k@.subrange(0, len as int), data@.subrange(0, len as int))
@@ -187,7 +207,7 @@ impl Point {
         ensures wf1(r), fe9(r.z@) == 1, fe9(r.x@) == be_val(b@.subrange(1, 33)), fe9(r.y@) == be_val(b@.subrange(33, 65))
     { unimplemented!() }
     fn to_bytes_be(&self) -> (r: Vec<u8>)
-        requires wf1(*self), val4(self.z@) != 0
+        requires wf1(*self) /* `val4(self.z@) != 0` dropped; for z == 0 the code yields 04 || 0^64 == xy1_bytes(Inf) */
         ensures r@ == seq![4u8] + xy1_bytes(abs1(*self))
     { unimplemented!() }
     fn is_on_curve(&self) -> (r: bool)
@@ -254,6 +274,80 @@ impl FieldElement for Fp12 {
     #[verifier::external_body] fn fp_inv(&self) -> Self { unimplemented!() }
     #[verifier::external_body] fn to_bytes_be(&self) -> Vec<u8> { unimplemented!() }
 }
+//@section spec local
+proof fn k9_h_range(prefix: u8, z: Seq<u8>) ensures 1 <= s_h(prefix, z) < N9()
+{
+    lemma_params9();
+    lemma_mod_bound(be_val(s_ha(prefix, z)), N9() - 1);
+}
+proof fn k9_fe_zero(a: Seq<u64>) requires canon9(a)
+    ensures (fe9(a) == 0) == (val4(a) == 0), (seq![fe9(a)] == seq![0int]) == (val4(a) == 0)
+{
+    lemma_params9();
+    lemma_val4_bounds(a);
+    let v = val4(a); let ri = RINV_P9(); let r = r256(); let p = P9();
+    if v == 0 { assert(v * ri == 0) by(nonlinear_arith) requires v == 0; lemma_small_mod(0, p as nat); }
+    if fe9(a) == 0 {
+        lemma_mul_mod_noop_general(v * ri, r, p);
+        assert(0 * r == 0);
+        lemma_small_mod(0, p as nat);
+        assert(((v * ri) * r) % p == 0);
+        assert((v * ri) * r == v * (r * ri)) by(nonlinear_arith);
+        lemma_mul_mod_noop_general(v, r * ri, p);
+        assert(v * 1 == v);
+        lemma_small_mod(v as nat, p as nat);
+    }
+    assert(seq![fe9(a)][0] == fe9(a));
+    assert(seq![0int][0] == 0);
+    if fe9(a) == 0 { assert(seq![fe9(a)] =~= seq![0int]); }
+}
+// the extraction scalar t2 = ks * (H1 + ks)^-1 mod N
+proof fn k9_extract(h1: int, k: int)
+    requires 1 <= h1 < N9(), 1 <= k < N9(), (h1 + k) % N9() != 0
+    ensures 0 <= (h1 + k) % N9() < N9(), 0 <= inv_n9((h1 + k) % N9()) < N9(),
+        (inv_n9((h1 + k) % N9()) * k) % N9() == (k * inv_n9((h1 + k) % N9())) % N9()
+{
+    lemma_params9();
+    let t = (h1 + k) % N9();
+    lemma_mod_bound(h1 + k, N9());
+    lemma_mod_twice(h1 + k, N9());
+    ax9_inv_n(t);
+    assert(inv_n9(t) * k == k * inv_n9(t)) by(nonlinear_arith);
+}
+proof fn k9_gt_bytes_len(g: Gt) ensures gt_bytes(g).len() == 32 * g.c.len() decreases g.c.len()
+{
+    if g.c.len() > 0 { k9_gt_bytes_len(Gt { c: g.c.drop_last() }); lemma_be_bytes_len(g.c.last(), 32); }
+}
+proof fn k9_gt_wrap(g: Gt) ensures (Gt { c: g.c }) == g { }
+proof fn k9_xy_len(q: Pt1) ensures xy1_bytes(q).len() == 64
+{ lemma_be_bytes_len(pt1_x(q), 32); lemma_be_bytes_len(pt1_y(q), 32); }
+proof fn k9_kdf_blocks_prefix(z: Seq<u8>, m: nat, n: nat) requires m <= n
+    ensures s_kdf_blocks(z, n).subrange(0, 32 * (m as int)) =~= s_kdf_blocks(z, m), s_kdf_blocks(z, n).len() == 32 * n, s_kdf_blocks(z, m).len() == 32 * m
+    decreases n
+{
+    lemma_kdf_blocks_len(z, n); lemma_kdf_blocks_len(z, m);
+    if m < n {
+        k9_kdf_blocks_prefix(z, m, (n - 1) as nat);
+        lemma_sm3_len(z + be_bytes(n as int, 4));
+        let a = s_kdf_blocks(z, (n - 1) as nat); let b = sm3_spec(z + be_bytes(n as int, 4));
+        assert(s_kdf_blocks(z, n) == a + b);
+        assert((a + b).subrange(0, 32 * (m as int)) =~= a.subrange(0, 32 * (m as int)));
+    } else {
+        assert(s_kdf_blocks(z, n).subrange(0, 32 * (m as int)) =~= s_kdf_blocks(z, m));
+    }
+}
+proof fn k9_kdf_len(z: Seq<u8>, n: nat) ensures s_kdf(z, n).len() == n
+{ lemma_kdf_blocks_len(z, ((n + 31) / 32) as nat); }
+// a longer KDF output starts with the shorter one
+proof fn k9_kdf_prefix(z: Seq<u8>, big: nat, n: nat) requires n <= big
+    ensures s_kdf(z, big).subrange(0, n as int) =~= s_kdf(z, n)
+{
+    let mb = ((big + 31) / 32) as nat; let mn = ((n + 31) / 32) as nat;
+    k9_kdf_blocks_prefix(z, mn, mb);
+    let bb = s_kdf_blocks(z, mb);
+    assert(bb.subrange(0, big as int).subrange(0, n as int) =~= bb.subrange(0, n as int));
+    assert(bb.subrange(0, 32 * (mn as int)).subrange(0, n as int) =~= bb.subrange(0, n as int));
+}
 //@section code gm-sm9/src/key.rs
 #[derive(Copy, Debug, Clone)]
 struct Sm9EncKey {
@@ -261,7 +355,7 @@ struct Sm9EncKey {
     de: TwistPoint,
 }
 impl Sm9EncKey {
-    #[verifier::external_body]
+//@props C10
     fn decrypt(&self, idb: &[u8], data: &[u8]) -> (res: Sm9Result<Vec<u8>>)
         requires valid2(self.de), idb@.len() < 0x1000_0000_0000_0000
         ensures res is Ok ==> dec9_ok(abs2(self.de), idb@, data@, res->Ok_0@),
@@ -274,6 +368,13 @@ impl Sm9EncKey {
         let c2 = &data[(65 + 32)..];
         let c3 = &data[65..(65 + 32)];
         
+        proof {
+            lemma_key9_consts(); lemma_params9();
+            assert(c1_bytes@.subrange(1, 33).subrange(0, 32) =~= data@.subrange(1, 33));
+            assert(c1_bytes@.subrange(33, 65).subrange(0, 32) =~= data@.subrange(33, 65));
+            assert(c1_bytes@.subrange(1, 33) =~= data@.subrange(1, 33));
+            assert(c1_bytes@.subrange(33, 65) =~= data@.subrange(33, 65));
+        }
         if c1_bytes[0] != 0x04
             || u256_cmp(&u256_from_be_bytes(&c1_bytes[1..33]), &SM9_P) >= 0
             || u256_cmp(&u256_from_be_bytes(&c1_bytes[33..65]), &SM9_P) >= 0
@@ -281,6 +382,7 @@ impl Sm9EncKey {
             return Err(Sm9Error::InvalidPoint);
         }
         let c1 = Point::from_bytes(c1_bytes);
+        proof { k9_z_one(c1); }
         if !c1.is_on_curve() {
             return Err(Sm9Error::InvalidPoint);
         }
@@ -290,7 +392,16 @@ impl Sm9EncKey {
         k_append.extend_from_slice(&c1_bytes[1..65]);
         k_append.extend_from_slice(&w_bytes);
         k_append.extend_from_slice(idb);
+        let ghost zz = data@.subrange(1, 65) + gt_bytes(e9(abs2(self.de), abs1(c1))) + idb@;
+        proof {
+            k9_gt_wrap(abs12(w)); k9_gt_bytes_len(abs12(w));
+            assert(w_bytes@ == gt_bytes(abs12(w)));
+            assert(c1_bytes@.subrange(1, 65) =~= data@.subrange(1, 65));
+            assert(k_append@ =~= zz);
+            k9_kdf_len(zz, 287);
+        }
         let k = kdf(&k_append, (255 + 32) as usize);
+        let ghost kk = k@;
         fn is_zero(x: &Vec<u8>) -> bool {
             shim_all_zero(x)
         }
@@ -300,11 +411,24 @@ impl Sm9EncKey {
             let mlen = data.len() - (65 + 32);
             let k1 = &k[0..mlen];
             let k2 = &k[mlen..];
+            proof {
+                k9_kdf_prefix(zz, 287, (mlen + 32) as nat);
+                k9_kdf_len(zz, (mlen + 32) as nat);
+                let kd = s_kdf(zz, (mlen + 32) as nat);
+                assert(k2@.subrange(0, 32) =~= kd.subrange(mlen as int, mlen as int + 32));
+                assert(k1@ =~= kd.subrange(0, mlen as int));
+                assert(c2@ =~= data@.subrange(97, data@.len() as int));
+                assert(c3@ =~= data@.subrange(65, 97));
+            }
             let u = sm9_mac(&k2[..32], c2);
             if shim_ne_slices(u.as_slice(), c3) {
                 return Err(Sm9Error::InvalidDigest);
             }
             let m = xor(c2, &k1, k1.len());
+            proof {
+                assert(c2@.subrange(0, mlen as int) =~= c2@);
+                assert(k1@.subrange(0, mlen as int) =~= k1@);
+            }
             Ok(m)
         } else {
             Err(Sm9Error::KdfHashError)
@@ -317,11 +441,12 @@ struct Sm9EncMasterKey {
     ppube: Point,
 }
 impl Sm9EncMasterKey {
-    #[verifier::external_body]
+//@props C14
     fn master_key_generate() -> (r: Sm9EncMasterKey)
         ensures csprng9(r.ke@), 1 <= val4(r.ke@) < N9() - 1, valid1(r.ppube), abs1(r.ppube) == g1_smul(val4(r.ke@), G1P()),
     {
         
+        proof { lemma_key9_consts(); }
         let ke = sm9_random_u256(&SM9_N_MINUS_ONE);
         Self {
             ke,
@@ -329,23 +454,33 @@ impl Sm9EncMasterKey {
         }
     }
 
-    #[verifier::external_body]
+//@props C10 C14
+    #[verifier::exec_allows_no_decreases_clause]
     fn encrypt(&self, idb: &[u8], data: &[u8]) -> (c: Vec<u8>)
         requires valid1(self.ppube), 1 <= data@.len() <= 255, idb@.len() < 0x1000_0000_0000_0000
         ensures exists|r: Seq<u64>| #[trigger] csprng9(r) && enc9_from_nonce(val4(r), abs1(self.ppube), idb@, data@, c@),
     {
         
+        proof { lemma_key9_consts(); lemma_params9(); ax_p2_generator(); }
         let t = sm9_u256_hash1(idb, SM9_HID_ENC);
         let mut c1 = SM9_POINT_MONT_P1.point_mul(&t);
         c1 = c1.point_add(&self.ppube);
 
         let mut k = vec![];
         let q = c1;
-        loop {
+        let ghost qb = g1_add(g1_smul(s_h1(idb@, 3u8), G1P()), abs1(self.ppube));
+        let ghost mut r0: Seq<u64> = t@;
+        loop
+            invariant_except_break valid1(q), abs1(q) == qb, valid1(self.ppube), idb@.len() < 0x1000_0000_0000_0000,
+                val4(SM9_N_MINUS_ONE@) == N9() - 1, valid2(SM9_TWIST_POINT_MONT_P2), abs2(SM9_TWIST_POINT_MONT_P2) == G2P(),
+            ensures csprng9(r0), 1 <= val4(r0) < N9() - 1, valid1(c1), abs1(c1) == g1_smul(val4(r0), qb),
+                k@ == s_kdf(xy1_bytes(abs1(c1)) + gt_bytes(gt_pow(e9(G2P(), abs1(self.ppube)), val4(r0))) + idb@, 287),
+        {
             
             let r = sm9_random_u256(&SM9_N_MINUS_ONE);
 
             
+            proof { r0 = r@; }
             c1 = q.point_mul(&r);
             let cbuf = c1.to_bytes_be();
             let cbuf = cbuf.as_slice();
@@ -364,6 +499,12 @@ impl Sm9EncMasterKey {
             k_append.extend_from_slice(&cbuf[1..cbuf.len()]);
             k_append.extend_from_slice(gbuf);
             k_append.extend_from_slice(idb);
+            proof {
+                k9_gt_wrap(abs12(g)); k9_gt_bytes_len(abs12(g)); k9_xy_len(abs1(c1));
+                assert(gbuf@ == gt_bytes(abs12(g)));
+                assert(cbuf@.subrange(1, cbuf@.len() as int) =~= xy1_bytes(abs1(c1)));
+                assert(k_append@ =~= xy1_bytes(abs1(c1)) + gt_bytes(gt_pow(e9(G2P(), abs1(self.ppube)), val4(r0))) + idb@);
+            }
             k = kdf(&k_append, (255 + 32) as usize);
             fn is_zero(x: &Vec<u8>) -> bool {
                 shim_all_zero(x)
@@ -374,18 +515,34 @@ impl Sm9EncMasterKey {
             }
         }
 
+        let ghost zz = xy1_bytes(abs1(c1)) + gt_bytes(gt_pow(e9(G2P(), abs1(self.ppube)), val4(r0))) + idb@;
+        let ghost mlen = data@.len() as int;
+        proof { k9_kdf_len(zz, 287); }
         let k1 = &k[0..data.len()];
         let k2 = &k[data.len()..];
+        proof {
+            k9_kdf_prefix(zz, 287, (mlen + 32) as nat);
+            k9_kdf_len(zz, (mlen + 32) as nat);
+            let kd = s_kdf(zz, (mlen + 32) as nat);
+            assert(k2@.subrange(0, 32) =~= kd.subrange(mlen, mlen + 32));
+            assert(k1@ =~= kd.subrange(0, mlen));
+            assert(k1@.subrange(0, mlen) =~= k1@);
+            assert(data@.subrange(0, mlen) =~= data@);
+        }
         let c2 = xor(k1, &data, data.len());
         let c3 = sm9_mac(&k2[..32], &c2);
         let mut c: Vec<u8> = vec![];
         c.extend_from_slice(&c1.to_bytes_be());
         c.extend_from_slice(&c3);
         c.extend_from_slice(&c2);
+        proof {
+            assert(c@ =~= seq![4u8] + xy1_bytes(abs1(c1)) + c3@ + c2@);
+            assert(csprng9(r0) && enc9_from_nonce(val4(r0), abs1(self.ppube), idb@, data@, c@));
+        }
         c
     }
 
-    #[verifier::external_body]
+//@props C10 C16
     fn extract_key(&self, id: &[u8]) -> (res: Option<Sm9EncKey>)
         requires 1 <= val4(self.ke@) < N9(), id@.len() < 0x1000_0000_0000_0000
         ensures res is None <==> (s_h1(id@, 3u8) + val4(self.ke@)) % N9() == 0,
@@ -393,12 +550,16 @@ impl Sm9EncMasterKey {
                 && abs2(res->Some_0.de) == g2_smul((val4(self.ke@) * inv_n9((s_h1(id@, 3u8) + val4(self.ke@)) % N9())) % N9(), G2P()),
     {
         
+        proof { lemma_params9(); lemma_key9_consts(); }
         let mut t = sm9_u256_hash1(id, SM9_HID_ENC);
+        let ghost h1 = val4(t@);
         t = mod_n_add(&t, &self.ke);
+        proof { lemma_mod_bound(h1 + val4(self.ke@), N9()); k9_fe_zero(t@); }
         if t.is_zero() {
             return None;
         }
         
+        proof { k9_extract(h1, val4(self.ke@)); }
         t = mod_n_inv(&t);
 
         
@@ -409,7 +570,7 @@ impl Sm9EncMasterKey {
         })
     }
 
-    #[verifier::external_body]
+//@props C16 C17
     fn extract_exch_key(&self, id: &[u8]) -> (res: Option<Sm9EncKey>)
         requires 1 <= val4(self.ke@) < N9(), id@.len() < 0x1000_0000_0000_0000
         ensures res is None <==> (s_h1(id@, 2u8) + val4(self.ke@)) % N9() == 0,
@@ -417,12 +578,16 @@ impl Sm9EncMasterKey {
                 && abs2(res->Some_0.de) == g2_smul((val4(self.ke@) * inv_n9((s_h1(id@, 2u8) + val4(self.ke@)) % N9())) % N9(), G2P()),
     {
         
+        proof { lemma_params9(); lemma_key9_consts(); }
         let mut t = sm9_u256_hash1(id, SM9_HID_EXCH);
+        let ghost h1 = val4(t@);
         t = mod_n_add(&t, &self.ke);
+        proof { lemma_mod_bound(h1 + val4(self.ke@), N9()); k9_fe_zero(t@); }
         if t.is_zero() {
             return None;
         }
         
+        proof { k9_extract(h1, val4(self.ke@)); }
         t = mod_n_inv(&t);
 
         
@@ -433,27 +598,29 @@ impl Sm9EncMasterKey {
         })
     }
 }
-#[verifier::external_body]
+//@props C14
 fn generate_sign_master_key() -> (r: Sm9SignMasterKey)
     ensures csprng9(r.ks@), 1 <= val4(r.ks@) < N9() - 1, valid2(r.ppubs), abs2(r.ppubs) == g2_smul(val4(r.ks@), G2P()),
 {
+    proof { lemma_key9_consts(); }
     let ks = sm9_random_u256(&SM9_N_MINUS_ONE);
     Sm9SignMasterKey {
         ks,
         ppubs: TwistPoint::g_mul(&ks),
     }
 }
-#[verifier::external_body]
+//@props C14
 fn generate_enc_master_key() -> (r: Sm9EncMasterKey)
     ensures csprng9(r.ke@), 1 <= val4(r.ke@) < N9() - 1, valid1(r.ppube), abs1(r.ppube) == g1_smul(val4(r.ke@), G1P()),
 {
+    proof { lemma_key9_consts(); }
     let ke = sm9_random_u256(&SM9_N_MINUS_ONE);
     Sm9EncMasterKey {
         ke,
         ppube: Point::g_mul(&ke),
     }
 }
-#[verifier::external_body]
+//@props C10
 fn sm9_mac(k2: &[u8], z: &[u8]) -> (r: Vec<u8>)
     requires k2@.len() + z@.len() < 0x1000_0000_0000_0000
     ensures r@ == s_mac9(k2@, z@),
@@ -461,9 +628,10 @@ fn sm9_mac(k2: &[u8], z: &[u8]) -> (r: Vec<u8>)
     let mut buf: Vec<u8> = vec![];
     buf.extend_from_slice(z);
     buf.extend_from_slice(k2);
+    proof { assert(buf@ =~= z@ + k2@); }
     sm3_hash(&buf).to_vec()
 }
-#[verifier::external_body]
+//@props C09 C10 C16 C17
 fn sm9_u256_hash1(id: &[u8], hid: u8) -> (r: U256)
     requires id@.len() < 0x1000_0000_0000_0000
     ensures val4(r@) == s_h1(id@, hid), 1 <= val4(r@) < N9(),
@@ -475,6 +643,7 @@ fn sm9_u256_hash1(id: &[u8], hid: u8) -> (r: U256)
     c3_append.extend_from_slice(id);
     c3_append.extend_from_slice(&vec![hid]);
     c3_append.extend_from_slice(&ct1);
+    proof { assert(c3_append@ =~= seq![1u8] + (id@ + seq![hid]) + seq![0u8, 0u8, 0u8, 1u8]); }
     let ha1 = sm3_hash(&c3_append);
 
     let mut c3_append2: Vec<u8> = vec![];
@@ -482,17 +651,23 @@ fn sm9_u256_hash1(id: &[u8], hid: u8) -> (r: U256)
     c3_append2.extend_from_slice(id);
     c3_append2.extend_from_slice(&vec![hid]);
     c3_append2.extend_from_slice(&ct2);
+    proof { assert(c3_append2@ =~= seq![1u8] + (id@ + seq![hid]) + seq![0u8, 0u8, 0u8, 2u8]); }
     let ha2 = sm3_hash(&c3_append2);
 
     let mut ha = vec![];
     ha.extend_from_slice(&ha1);
     ha.extend_from_slice(&ha2);
+    proof {
+        lemma_sm3_len(c3_append@); lemma_sm3_len(c3_append2@);
+        assert(ha@ =~= sm3_spec(c3_append@) + sm3_spec(c3_append2@));
+        k9_h_range(1u8, id@ + seq![hid]);
+    }
     let r = mod_n_from_hash(&ha);
     r
 }
-#[verifier::external_body]
+//@props C09 C16
 fn sm9_u256_hash2(data: &[u8], wbuf: &[u8]) -> (r: U256)
-    requires data@.len() + wbuf@.len() < 0x1000_0000_0000_0000
+    requires data@.len() + wbuf@.len() < 0x1fff_ffff_ffff_fff0 /* relaxed from < 0x1000_0000_0000_0000, callers add 384 GT bytes */
     ensures val4(r@) == s_h2(data@, wbuf@), 1 <= val4(r@) < N9(),
 {
     let ct1: [u8; 4] = [0x00, 0x00, 0x00, 0x01];
@@ -502,6 +677,7 @@ fn sm9_u256_hash2(data: &[u8], wbuf: &[u8]) -> (r: U256)
     c3_append.extend_from_slice(data);
     c3_append.extend_from_slice(wbuf);
     c3_append.extend_from_slice(&ct1);
+    proof { assert(c3_append@ =~= seq![2u8] + (data@ + wbuf@) + seq![0u8, 0u8, 0u8, 1u8]); }
     let ha1 = sm3_hash(&c3_append);
 
     let mut c3_append2: Vec<u8> = vec![];
@@ -509,27 +685,37 @@ fn sm9_u256_hash2(data: &[u8], wbuf: &[u8]) -> (r: U256)
     c3_append2.extend_from_slice(data);
     c3_append2.extend_from_slice(wbuf);
     c3_append2.extend_from_slice(&ct2);
+    proof { assert(c3_append2@ =~= seq![2u8] + (data@ + wbuf@) + seq![0u8, 0u8, 0u8, 2u8]); }
     let ha2 = sm3_hash(&c3_append2);
 
     let mut ha = vec![];
     ha.extend_from_slice(&ha1);
     ha.extend_from_slice(&ha2);
+    proof {
+        lemma_sm3_len(c3_append@); lemma_sm3_len(c3_append2@);
+        assert(ha@ =~= sm3_spec(c3_append@) + sm3_spec(c3_append2@));
+        k9_h_range(2u8, data@ + wbuf@);
+    }
     let r = mod_n_from_hash(&ha);
     r
 }
-#[verifier::external_body]
+//@props C10 C17
 fn kdf(z: &[u8], klen: usize) -> (h_a: Vec<u8>)
-    requires 1 <= klen < 0x1_0000_0000, z@.len() < 0x1000_0000_0000_0000
+    requires 1 <= klen < 0x1_0000_0000, z@.len() < 0x1fff_ffff_ffff_fff0 /* relaxed from < 0x1000_0000_0000_0000, callers add point and GT bytes */
     ensures h_a@ == s_kdf(z@, klen as nat),
 {
     let mut ct = 0x00000001u32;
     let bound = shim_ceil_div32(klen);
     let mut h_a = Vec::new();
-    for _i in 1..bound {
+    for _i in it: 1..bound
+        invariant bound as int == (klen + 31) / 32, ct as int == it.index@ + 1, ct <= bound, z@.len() < 0x1fff_ffff_ffff_fff0,
+            h_a@ == s_kdf_blocks(z@, it.index@ as nat),
+    {
         let mut prepend = Vec::new();
         prepend.extend_from_slice(z);
         prepend.extend_from_slice(&shim_to_be_u32(ct));
 
+        proof { assert(prepend@ =~= z@ + be_bytes(ct as int, 4)); assert(prepend@.subrange(0, prepend@.len() as int) =~= prepend@); lemma_be_bytes_len(ct as int, 4); }
         let h_a_i = sm3_hash(&prepend[..]);
         h_a.extend_from_slice(&h_a_i);
         ct += 1;
@@ -539,11 +725,18 @@ fn kdf(z: &[u8], klen: usize) -> (h_a: Vec<u8>)
     prepend.extend_from_slice(z);
     prepend.extend_from_slice(&shim_to_be_u32(ct));
 
+    proof { assert(prepend@ =~= z@ + be_bytes(ct as int, 4)); assert(prepend@.subrange(0, prepend@.len() as int) =~= prepend@); lemma_be_bytes_len(ct as int, 4); }
     let last = sm3_hash(&prepend[..]);
+    proof { lemma_kdf_blocks_len(z@, (bound - 1) as nat); lemma_sm3_len(z@ + be_bytes(bound as int, 4)); }
     if klen % 32 == 0 {
         h_a.extend_from_slice(&last);
     } else {
         h_a.extend_from_slice(&last[0..(klen % 32)]);
+    }
+    proof {
+        let full = s_kdf_blocks(z@, bound as nat);
+        assert(full == s_kdf_blocks(z@, (bound - 1) as nat) + sm3_spec(z@ + be_bytes(bound as int, 4)));
+        assert(h_a@ =~= full.subrange(0, klen as int));
     }
     h_a
 }
@@ -554,31 +747,42 @@ struct Sm9SignKey {
 }
 impl Sm9SignKey {
     
-    #[verifier::external_body]
+//@props C09 C14
+    #[verifier::exec_allows_no_decreases_clause]
     fn sign(&self, data: &[u8]) -> (res: Sm9Result<(U256, Point)>)
         requires valid2(self.ppubs), valid1(self.ds), data@.len() < 0x1000_0000_0000_0000
         ensures res is Ok, exists|r: Seq<u64>| #[trigger] csprng9(r) && sig9_from_nonce(val4(r), abs2(self.ppubs), abs1(self.ds), data@, val4(res->Ok_0.0@), abs1(res->Ok_0.1)),
             valid1(res->Ok_0.1),
     {
         
+        proof { lemma_key9_consts(); lemma_params9(); }
         let g = sm9_u256_pairing(&self.ppubs, &SM9_POINT_MONT_P1);
         let mut h: U256 = [0, 0, 0, 0];
         let mut r: U256 = [0, 0, 0, 0];
-        loop {
+        let ghost mut r0: Seq<u64> = r@;
+        loop
+            invariant_except_break ok12(g), abs12(g) == e9(abs2(self.ppubs), G1P()), data@.len() < 0x1000_0000_0000_0000,
+                val4(SM9_N_MINUS_ONE@) == N9() - 1, 0 < N9() < P9(),
+            ensures csprng9(r0), 1 <= val4(r0) < N9() - 1, val4(h@) == s_h2(data@, gt_bytes(gt_pow(abs12(g), val4(r0)))),
+                val4(r@) == (val4(r0) - val4(h@)) % N9(), val4(r@) != 0,
+        {
             
             r = sm9_random_u256(&SM9_N_MINUS_ONE);
 
             
+            proof { r0 = r@; }
             let w = g.pow(&r);
             let wbuf = w.to_bytes_be();
             let wbuf = wbuf.as_slice();
 
             
+            proof { k9_gt_wrap(abs12(w)); k9_gt_bytes_len(abs12(w)); assert(wbuf@ == gt_bytes(abs12(w))); }
             h = sm9_u256_hash2(data, wbuf);
 
             
             r = mod_n_sub(&r, &h);
 
+            proof { lemma_mod_bound(val4(r0) - val4(h@), N9()); k9_fe_zero(r@); }
             if !r.is_zero() {
                 break;
             }
@@ -596,11 +800,12 @@ struct Sm9SignMasterKey {
     ppubs: TwistPoint,
 }
 impl Sm9SignMasterKey {
-    #[verifier::external_body]
+//@props C14
     fn master_key_generate() -> (r: Self)
         ensures csprng9(r.ks@), 1 <= val4(r.ks@) < N9() - 1, valid2(r.ppubs), abs2(r.ppubs) == g2_smul(val4(r.ks@), G2P()),
     {
         
+        proof { lemma_key9_consts(); }
         let ks = sm9_random_u256(&SM9_N_MINUS_ONE);
         Self {
             ks,
@@ -608,7 +813,7 @@ impl Sm9SignMasterKey {
         }
     }
 
-    #[verifier::external_body]
+//@props C09 C16
     fn extract_key(&self, idb: &[u8]) -> (res: Option<Sm9SignKey>)
         requires 1 <= val4(self.ks@) < N9(), idb@.len() < 0x1000_0000_0000_0000
         ensures res is None <==> (s_h1(idb@, 1u8) + val4(self.ks@)) % N9() == 0,
@@ -616,12 +821,16 @@ impl Sm9SignMasterKey {
                 && abs1(res->Some_0.ds) == g1_smul((val4(self.ks@) * inv_n9((s_h1(idb@, 1u8) + val4(self.ks@)) % N9())) % N9(), G1P()),
     {
         
+        proof { lemma_params9(); lemma_key9_consts(); }
         let mut t = sm9_u256_hash1(idb, SM9_HID_SIGN);
+        let ghost h1 = val4(t@);
         t = mod_n_add(&t, &self.ks);
+        proof { lemma_mod_bound(h1 + val4(self.ks@), N9()); k9_fe_zero(t@); }
         if t.is_zero() {
             return None;
         }
         
+        proof { k9_extract(h1, val4(self.ks@)); }
         t = mod_n_inv(&t);
 
         
@@ -632,12 +841,13 @@ impl Sm9SignMasterKey {
         })
     }
 
-    #[verifier::external_body]
+//@props C09
     fn verify_sign(&self, id: &[u8], data: &[u8], h: &U256, s: &Point) -> (res: Sm9Result<()>)
         requires valid2(self.ppubs), wf1(*s), val4(s.z@) != 0, id@.len() < 0x1000_0000_0000_0000, data@.len() < 0x1000_0000_0000_0000
         ensures res is Ok ==> ver9_ok(abs2(self.ppubs), id@, data@, val4(h@), abs1(*s)),
     {
         
+        proof { lemma_key9_consts(); lemma_params9(); if canon9(h@) { k9_fe_zero(h@); } }
         if h.is_zero() || u256_cmp(h, &SM9_N) >= 0 {
             return Err(Sm9Error::InvalidDigest);
         }
@@ -655,6 +865,13 @@ impl Sm9SignMasterKey {
         let w = u.fp_mul(&t);
         let wbuf = w.to_bytes_be();
         let wbuf = wbuf.as_slice();
+        proof {
+            k9_gt_wrap(abs12(u)); k9_gt_wrap(abs12(t)); k9_gt_wrap(abs12(w));
+            k9_gt_bytes_len(abs12(w));
+            assert(abs12(w) == gt_mul(abs12(u), abs12(t)));
+            assert(wbuf@ == gt_bytes(abs12(w)));
+            assert(wbuf@.len() == 384);
+        }
         let h2 = sm9_u256_hash2(data, wbuf);
         if u256_cmp(&h2, h) != 0 {
             Err(Sm9Error::InvalidDigest)
@@ -663,13 +880,14 @@ impl Sm9SignMasterKey {
         }
     }
 }
-#[verifier::external_body]
+//@props C14 C17
 fn exch_step_1a(msk: &Sm9EncMasterKey, idb: &[u8]) -> (res: (Point, U256))
     requires valid1(msk.ppube), idb@.len() < 0x1000_0000_0000_0000
     ensures csprng9(res.1@), 1 <= val4(res.1@) < N9() - 1, valid1(res.0),
         abs1(res.0) == g1_smul(val4(res.1@), g1_add(g1_smul(s_h1(idb@, 2u8), G1P()), abs1(msk.ppube))),
 {
     
+    proof { lemma_key9_consts(); }
     let mut ra = sm9_u256_hash1(idb, SM9_HID_EXCH);
     let mut r = SM9_POINT_MONT_P1.point_mul(&ra);
     r = r.point_add(&msk.ppube);
@@ -683,7 +901,8 @@ fn exch_step_1a(msk: &Sm9EncMasterKey, idb: &[u8]) -> (res: (Point, U256))
 
     (r, ra)
 }
-#[verifier::external_body]
+//@props C14 C17
+#[verifier::exec_allows_no_decreases_clause]
 fn exch_step_1b(
     msk: &Sm9EncMasterKey,
     ida: &[u8],
@@ -698,12 +917,20 @@ fn exch_step_1b(
         res is Ok ==> (exists|rb: Seq<u64>| #[trigger] csprng9(rb) && exch9_b(val4(rb), abs1(msk.ppube), abs2(key.de), ida@, idb@, abs1(*ra), klen as nat, abs1(res->Ok_0.0), res->Ok_0.1@)),
 {
     
+    proof { lemma_key9_consts(); lemma_params9(); ax_p2_generator(); }
     let mut rb = sm9_u256_hash1(ida, SM9_HID_EXCH);
     let mut r = SM9_POINT_MONT_P1.point_mul(&rb);
     r = r.point_add(&msk.ppube);
     let mut sk = vec![];
     let q = r;
-    loop {
+    let ghost qb = g1_add(g1_smul(s_h1(ida@, 2u8), G1P()), abs1(msk.ppube));
+    loop
+        invariant_except_break valid1(q), abs1(q) == qb, valid1(msk.ppube), valid2(key.de), wf1(*ra), val4(ra.z@) != 0, 1 <= klen < 0x1_0000_0000,
+            ida@.len() + idb@.len() < 0x1000_0000_0000_0000, valid2(SM9_TWIST_POINT_MONT_P2), abs2(SM9_TWIST_POINT_MONT_P2) == G2P(),
+            val4(SM9_N_MINUS_ONE@) == N9() - 1,
+        ensures on_curve1(abs1(*ra)), csprng9(rb@), 1 <= val4(rb@) < N9() - 1, abs1(r) == g1_smul(val4(rb@), qb),
+            sk@ == exch9_key(ida@, idb@, abs1(*ra), abs1(r), e9(abs2(key.de), abs1(*ra)), gt_pow(e9(G2P(), abs1(msk.ppube)), val4(rb@)), gt_pow(e9(abs2(key.de), abs1(*ra)), val4(rb@)), klen as nat),
+    {
         
         rb = sm9_random_u256(&SM9_N_MINUS_ONE);
 
@@ -721,6 +948,7 @@ fn exch_step_1b(
         let mut g2 = sm9_u256_pairing(&SM9_TWIST_POINT_MONT_P2, &msk.ppube);
         g2 = g2.pow(&rb);
         let g3 = g1.pow(&rb);
+        let ghost a1 = abs12(g1); let ghost a2 = abs12(g2); let ghost a3 = abs12(g3);
         let ta = ra.to_bytes_be();
         let tb = r.to_bytes_be();
 
@@ -737,11 +965,24 @@ fn exch_step_1b(
         pre_append.extend_from_slice(&g2);
         pre_append.extend_from_slice(&g3);
 
+        proof {
+            k9_gt_wrap(a1); k9_gt_wrap(a2); k9_gt_wrap(a3); k9_gt_bytes_len(a1); k9_gt_bytes_len(a2); k9_gt_bytes_len(a3);
+            k9_xy_len(abs1(*ra)); k9_xy_len(abs1(r));
+            assert(g1@ == gt_bytes(a1) && g2@ == gt_bytes(a2) && g3@ == gt_bytes(a3));
+            assert(ta@.subrange(1, ta@.len() as int) =~= xy1_bytes(abs1(*ra)));
+            assert(tb@.subrange(1, tb@.len() as int) =~= xy1_bytes(abs1(r)));
+            assert(pre_append@ =~= ida@ + idb@ + xy1_bytes(abs1(*ra)) + xy1_bytes(abs1(r)) + gt_bytes(a1) + gt_bytes(a2) + gt_bytes(a3));
+            k9_kdf_len(pre_append@, klen as nat);
+        }
         sk = kdf(&pre_append, klen);
 
-        fn is_zero(x: &Vec<u8>, klen: usize) -> bool {
+        fn is_zero(x: &Vec<u8>, klen: usize) -> (r: bool)
+            requires klen <= x@.len()
+        {
             let mut ret = true;
-            for i in 0..klen {
+            for i in 0..klen
+                invariant klen <= x@.len()
+            {
                 if x[i] != 0 {
                     ret = false;
                 }
@@ -753,9 +994,10 @@ fn exch_step_1b(
             break;
         }
     }
+    proof { assert(csprng9(rb@) && exch9_b(val4(rb@), abs1(msk.ppube), abs2(key.de), ida@, idb@, abs1(*ra), klen as nat, abs1(r), sk@)); }
     Ok((r, sk))
 }
-#[verifier::external_body]
+//@props C17
 fn exch_step_2a(
     msk: &Sm9EncMasterKey,
     ida: &[u8],
@@ -772,8 +1014,15 @@ fn exch_step_2a(
         res is Ok ==> res->Ok_0@ == exch9_key(ida@, idb@, abs1(*ra), abs1(*rb),
             gt_pow(e9(G2P(), abs1(msk.ppube)), val4(ra_@)), e9(abs2(key.de), abs1(*rb)), gt_pow(e9(abs2(key.de), abs1(*rb)), val4(ra_@)), klen as nat),
 {
+    proof { lemma_key9_consts(); lemma_params9(); ax_p2_generator(); }
     let mut sk = vec![];
-    loop {
+    loop
+        invariant_except_break valid1(msk.ppube), valid2(key.de), wf1(*ra), val4(ra.z@) != 0, wf1(*rb), val4(rb.z@) != 0, 1 <= klen < 0x1_0000_0000, val4(ra_@) < N9() - 1,
+            ida@.len() + idb@.len() < 0x1000_0000_0000_0000, valid2(SM9_TWIST_POINT_MONT_P2), abs2(SM9_TWIST_POINT_MONT_P2) == G2P(),
+        ensures on_curve1(abs1(*rb)),
+            sk@ == exch9_key(ida@, idb@, abs1(*ra), abs1(*rb), gt_pow(e9(G2P(), abs1(msk.ppube)), val4(ra_@)), e9(abs2(key.de), abs1(*rb)), gt_pow(e9(abs2(key.de), abs1(*rb)), val4(ra_@)), klen as nat),
+        decreases 0int,
+    {
         if !rb.is_on_curve() {
             return Err(Sm9Error::InvalidPoint);
         }
@@ -784,6 +1033,7 @@ fn exch_step_2a(
         let g2 = sm9_u256_pairing(&key.de, &rb);
         let g3 = g2.pow(&ra_);
 
+        let ghost a1 = abs12(g1); let ghost a2 = abs12(g2); let ghost a3 = abs12(g3);
         let ta = ra.to_bytes_be();
         let tb = rb.to_bytes_be();
 
@@ -800,10 +1050,23 @@ fn exch_step_2a(
         pre_append.extend_from_slice(&g2);
         pre_append.extend_from_slice(&g3);
 
+        proof {
+            k9_gt_wrap(a1); k9_gt_wrap(a2); k9_gt_wrap(a3); k9_gt_bytes_len(a1); k9_gt_bytes_len(a2); k9_gt_bytes_len(a3);
+            k9_xy_len(abs1(*ra)); k9_xy_len(abs1(*rb));
+            assert(g1@ == gt_bytes(a1) && g2@ == gt_bytes(a2) && g3@ == gt_bytes(a3));
+            assert(ta@.subrange(1, ta@.len() as int) =~= xy1_bytes(abs1(*ra)));
+            assert(tb@.subrange(1, tb@.len() as int) =~= xy1_bytes(abs1(*rb)));
+            assert(pre_append@ =~= ida@ + idb@ + xy1_bytes(abs1(*ra)) + xy1_bytes(abs1(*rb)) + gt_bytes(a1) + gt_bytes(a2) + gt_bytes(a3));
+            k9_kdf_len(pre_append@, klen as nat);
+        }
         sk = kdf(&pre_append, klen);
-        fn is_zero(x: &Vec<u8>, klen: usize) -> bool {
+        fn is_zero(x: &Vec<u8>, klen: usize) -> (r: bool)
+            requires klen <= x@.len()
+        {
             let mut ret = true;
-            for i in 0..klen {
+            for i in 0..klen
+                invariant klen <= x@.len()
+            {
                 if x[i] != 0 {
                     ret = false;
                 }
@@ -814,6 +1077,7 @@ fn exch_step_2a(
         if !is_zero(&sk, klen) {
             break;
         }
+        return Err(Sm9Error::KdfHashError);
     }
     Ok(sk)
 }
